@@ -366,6 +366,9 @@ func (l *WAL) Remove(files []string) error {
 	for _, fn := range files {
 		l.traceLogger.Info("Removing WAL file", zap.String("path", fn))
 		os.RemoveAll(fn)
+		if verifhook.Enabled {
+			verifhook.Emit("wal.remove.file", fn)
+		}
 	}
 	if verifhook.Enabled {
 		verifhook.Emit("wal.remove", files)
